@@ -1228,7 +1228,13 @@ def harnesses_for(prop, tier, seed):
         for d in dd:
             body = sym_setup(d) + '        { let dv: %s = %s; kani::assume(ref_%s::try_new(dv).is_ok()); }\n' % (concrete_inner(d), d.default_ref, d.id) + '        let i = <%s as Default>::default().into_inner();\n        assert!(ref_%s::valid(&i), "Default::default() yields a valid value (or panics)");\n' % (concrete_self(d), d.id)
             hs.append(Harness(d, 'guards run: Default', [prop], body, clause='default() returns only a value that satisfies every declared validator'))
-        decls = decls + dd
+        nd = [d for d in default_decls(tier) if d.note == 'no-default-attribute']
+        for d in nd:
+            h = h_default(d, [prop])
+            h.what = 'guards run: Default (declared without `default =`; must be rejected, or sanitize the inner default)'
+            h.key = '%s::%s' % (d.id, h.what)
+            hs.append(h)
+        decls = decls + dd + nd
     elif prop == 'C09':
         di = arbitrary_int_decls(tier)
         df = arbitrary_float_decls(tier)
@@ -1371,7 +1377,7 @@ def default_decls(tier='quick'):
     out.append(ds)
     # `derive(Default)` without `default = ..` must be rejected; should it ever be accepted, the harness
     # requires default() == new(<Inner as Default>::default())
-    sm = Custom(name='san_m', src='san_m', spec='')
+    sm = Custom(name='san_m2', src='san_m2', spec='')
     for did, fam, inner, sans, auxn in [('def_nodefault_any', 'any', 'Meters', [Sanitizer('with', sm)], ['Meters']),
                                         ('def_nodefault_i32', 'int', 'i32', [Sanitizer('with', aux.custom('san2', 'i32')[0])], ['san2_i32']),
                                         ('def_nodefault_str', 'string', 'String', [Sanitizer('trim')], [])]:
